@@ -161,7 +161,8 @@ PARAMS["C13"] = {"rule": "element types u8, i32, f64 (NaN, +-inf, -0.0), String,
 
 PROPS["C19"] = Prop(
     "C19", ["GA.Props.C19"],
-    [Engine("fill", scen.fill, sig=lambda l: " ".join(l.split()[:2]))],
+    [Engine("fill", scen.fill, sig=lambda l: " ".join(l.split()[:2])),
+     Engine("filldefault", scen.filldefault, runner=corpora.filldefault_runner, sig=lambda l: " ".join(l.split()[:2]))],
     trusted=[KERNEL, TRANSLATOR, HARNESS,
              "modelled, not verified: zeroize's `IterMut<Z>: Zeroize` (calls the element's zeroize on every item), the const-default crate's impls for primitives and `[T; 0]`, const evaluation of struct literals; field placement is C01's layout result (repr(C), no padding)"],
     assumptions=["the element's own zeroize / DEFAULT are parameters of the theorems (any function, any value); the engine instantiates them with five element types"],
